@@ -55,6 +55,25 @@ Theorem c10_pubsub_fifo : forall pm evs t,
 Proof. exact pubsub_fifo. Qed.
 Print Assumptions c10_pubsub_fifo.
 
+(* In particular the (un)subscriptions of other connections -- including UNSUBSCRIBE / PUNSUBSCRIBE of
+   names the sender never subscribed to, which liveSubscription passes to unregister all the same --
+   change nothing for t: a subscriber acknowledged before a publish, and that has not itself
+   unsubscribed, receives it whatever the others do. *)
+Theorem c10_pubsub_foreign_unsubscribe : forall pm evs t,
+  serialised pm ps_init evs = true ->
+  ps_view (prun pm ps_init evs) t = expected pm t (mkTsubs [] []) (own_history t evs).
+Proof. exact pubsub_foreign_unsubscribe. Qed.
+Print Assumptions c10_pubsub_foreign_unsubscribe.
+
+(* example: Y (target 0) is the only subscriber of channel 7; X (target 1) unsubscribes from 7 and from
+   pattern 0 without ever having subscribed; the publish still reaches Y *)
+Example c10_foreign_unsubscribe_example :
+  let pm := fun p c : N => N.eqb (N.div c 100) p in
+  let evs := [PReg false 7%N 0%nat; PReg true 0%N 2%nat; PUnreg false 7%N 1%nat; PUnreg true 0%N 1%nat;
+              PSnap 7%N 42%N; PAppend; PAppend; PDrain 0%nat] in
+  map pm_body (ps_out (prun pm ps_init evs) 0%nat) = [42%N].
+Proof. vm_compute. reflexivity. Qed.
+
 Theorem c10_pubsub_drained : forall pm evs t,
   serialised pm ps_init evs = true -> ps_snap (prun pm ps_init evs) = [] ->
   ps_out (prun pm ps_init (evs ++ [PDrain t])) t = expected pm t (mkTsubs [] []) evs.
